@@ -196,8 +196,17 @@ static void dft_stage_init(
     int k = phase_response == 50 && lsx_is_power_of_2(L) && Fn == L? L << 1 : 4;
     double m, * h = lsx_design_lpf(Fp, Fs, Fn, att, &num_taps, -k, -1.);
 
-    if (phase_response != 50)
+    if (phase_response != 50) {
       lsx_fir_to_phase(&h, &num_taps, &f->post_peak, phase_response);
+      if (lsx_is_power_of_2(L) && (num_taps - 1) % L) {
+        /* The F-domain up-sampler needs block_len, hence num_taps - 1, to be a
+         * multiple of L: pad the transformed filter with trailing zeros. */
+        int pad = L - (num_taps - 1) % L;
+        h = realloc(h, (size_t)(num_taps + pad) * sizeof(*h));
+        memset(h + num_taps, 0, (size_t)pad * sizeof(*h));
+        num_taps += pad, f->post_peak += pad;
+      }
+    }
     else f->post_peak = num_taps / 2;
 
     dft_length = set_dft_length(num_taps, (int)min_dft_size, (int)large_dft_size);
